@@ -38,6 +38,9 @@ NOTES = {  # seeds the checks missed at first, and what was added to catch them
     "C19-c1": "after script `created` (201 with a Location field, nothing to follow) in ClientQueue.tla",
     "C22-c1": "after class `unverifiable` in RxGuard.tla (transferable signer id that is not in the receiver's keep)",
     "C24-c1": "after `HolesSpec` (histories that begin with three values under one key: ordinals with holes)",
+    "C12-c2": "after answer pattern `slow` in Idle.tla (a peer that reads slowly: a few bytes leave at every service, never all)",
+    "C19-c2": "after script `notmod` (304 with a Content-Length field: complete without a body)",
+    "C11-c2": "after held connections that were cut off (end of stream seen) before the same address connects again",
     "C11-a2": "patch no longer applies after the follow-up repair of ServerTls.close; the re-based demo passes on the patched "
               "tree too (garbage collection closes the socket) - kept as own mutant, caught by the single-peer deep histories",
 }
